@@ -758,6 +758,46 @@ class Interp:
         e = self.guarded(lambda: self.d.clear(), ('C04', 'C03'), 'clear()')
         self.finish(e, 'clear')
 
+    def op_noweak(self, op):
+        """A handler of a type that cannot be weakly referenced (a tuple
+        subclass, say a NamedTuple): registering it is refused (TypeError) -
+        or, if it is accepted, it is held weakly like any other: once the
+        program lets go of it, it is gone and is not called."""
+        if self.cbstack:
+            return 'skip'
+        it = self
+        state = {'dead': False, 'calls': 0}
+
+        def on_ev(self, *a, **k):
+            state['calls'] += 1
+
+        def fin(self):
+            state['dead'] = True
+        H = self.desper.event_handler(op[1])(type(
+            'TupleHandler', (tuple,), {op[1]: on_ev, '__del__': fin}))
+        h = H()
+        self.probes['handler_without_weakref_support'] += 1
+        try:
+            self.d.add_handler(h)
+        except TypeError as e:
+            e.__traceback__ = None
+            self.probes['registration_refused'] += 1
+            return None
+        del h
+        if not state['dead']:
+            gc.collect()
+        if not state['dead']:
+            self.fail('C10', 'kept_alive', 'a handler that cannot be weakly '
+                      'referenced was accepted by add_handler and is kept '
+                      'alive after the program dropped it')
+        before = state['calls']
+        if self.enabled:
+            self.guarded(lambda: self.d.dispatch(op[1]), ('C10',),
+                         'dispatch after the drop')
+        if state['calls'] != before:
+            self.fail('C10', 'called_after_gone', 'a dropped handler without '
+                      'weak reference support was still called')
+
     def op_gc(self, op):
         if self.cbstack:
             return 'skip'
@@ -1100,6 +1140,12 @@ class Interp:
             e = d.SwitchWorld(d.Handle())
         elif kind == 'Crash':
             e = Crash('injected')       # not an Exception (KeyboardInterrupt)
+        elif kind in ('IndexError', 'KeyError', 'StopIteration',
+                      'AttributeError', 'RuntimeError', 'GeneratorExit',
+                      'AssertionError', 'TypeError'):
+            # exception types a dispatcher might use internally as signals
+            import builtins
+            e = getattr(builtins, kind)('injected')
         else:
             e = Boom('injected')
         e._injected = True
@@ -1328,6 +1374,7 @@ def gen_script(prop, rng, cfg, state, act, acts):
 
 
 FAULT_KINDS = ['raise_Boom', 'raise_Quit', 'raise_SwitchWorld', 'raise_Crash',
+               'raise_builtin',
                'disable',
                'disable_enable', 'redispatch', 'enable', 'add_handler',
                'remove_handler', 'swap_handlers', 'guarded_nested_release',
@@ -1335,6 +1382,11 @@ FAULT_KINDS = ['raise_Boom', 'raise_Quit', 'raise_SwitchWorld', 'raise_Crash',
 
 
 def fault_script(kind, rng, state):
+    if kind == 'raise_builtin':
+        return [['raise', rng.choice(['IndexError', 'KeyError',
+                                      'StopIteration', 'AttributeError',
+                                      'RuntimeError', 'GeneratorExit',
+                                      'AssertionError', 'TypeError'])]]
     if kind.startswith('raise_'):
         return [['raise', kind[6:]]]
     n = state.get('nslots', 2)
@@ -1458,6 +1510,9 @@ def generate(prop, run_seed, tier='quick', tolerate=frozenset()):
             block.append(['dispatch', e, state['token'], 1])
         k = crng.randint(0, len(ops))
         ops[k:k] = block
+    if prop == 'C10' and crng.random() < .08:
+        ops.insert(crng.randint(0, len(ops)),
+                   ['noweak', crng.choice(EVENTS[:3])])
     r_long = crng.random()
     if prop == 'C04' and r_long < .004:
         # a very long backlog (bounded buffers): one listener, no scripts
